@@ -1,7 +1,8 @@
 // Driver for C12 (retention removes exactly the expired messages and nothing else).
 //
 //	scan <store> <period_s> <boxes> <inj> <cancelAt>
-//	   boxes    mb:age,age,…;mb:…       ages in seconds ("mb:" = a mailbox that got mail and was purged)
+//	   boxes    mb:age,age,…;mb:…       ages in seconds ("mb:" = a mailbox that got mail and was purged); "age*n" = n
+//	                                    messages of that age (large mailboxes)
 //	   inj      pos/op,…                 operations of other clients forced between the scanner's steps
 //	              pos  v<n>  before the walk takes its n-th mailbox snapshot (n=1: before DoScan)
 //	                   r<n>  before the scanner's n-th RemoveMessage call
@@ -258,6 +259,8 @@ func (h *hookStore) PurgeMessages(mb string) error {
 	return h.Store.PurgeMessages(mb)
 }
 
+// dump: which of the messages ever delivered are still in the store — every id is asked for on its own
+// (GetMessage), so a listing that leaves something out hides nothing —, plus whatever a listing shows beyond them.
 func (d *drv) dump() string {
 	var names []string
 	for n := range d.names {
@@ -266,24 +269,32 @@ func (d *drv) dump() string {
 	sort.Strings(names)
 	var parts []string
 	for _, mb := range names {
+		var ks []string
+		known := map[string]bool{}
+		for k, id := range d.ids[mb] {
+			known[id] = true
+			m, err := d.inner.GetMessage(mb, id)
+			if err != nil || m == nil {
+				continue
+			}
+			t := strconv.Itoa(k)
+			if !d.intact(mb, m) {
+				t += "!"
+			}
+			ks = append(ks, t)
+		}
 		ms, err := d.inner.GetMessages(mb)
 		if err != nil {
 			parts = append(parts, vh.HS(mb)+"=ERR")
 			continue
 		}
-		if len(ms) == 0 {
-			continue
+		for _, m := range ms {
+			if !known[m.ID()] {
+				ks = append(ks, "?")
+			}
 		}
-		ks := make([]string, len(ms))
-		for i, m := range ms {
-			if k, ok := d.rev[mb][m.ID()]; ok {
-				ks[i] = strconv.Itoa(k)
-			} else {
-				ks[i] = "?"
-			}
-			if !d.intact(mb, m) {
-				ks[i] += "!"
-			}
+		if len(ks) == 0 {
+			continue
 		}
 		parts = append(parts, vh.HS(mb)+"="+strings.Join(ks, ":"))
 	}
@@ -331,7 +342,14 @@ func (d *drv) fill(boxes string) {
 			continue
 		}
 		for _, a := range strings.Split(p[1], ",") {
-			d.add(mb, vh.AtoI(a))
+			// "<age>*<n>": n messages of that age, one after the other
+			n := 1
+			if i := strings.IndexByte(a, '*'); i >= 0 {
+				a, n = a[:i], vh.AtoI(a[i+1:])
+			}
+			for ; n > 0; n-- {
+				d.add(mb, vh.AtoI(a))
+			}
 		}
 	}
 }
@@ -404,7 +422,8 @@ func runScan(in []string) []string {
 	if err != nil {
 		res = "ERR"
 	}
-	if took > 2*time.Second {
+	// a removal on the file store rewrites the mailbox index: large mailboxes get 20 ms per removal on top
+	if took > 2*time.Second+time.Duration(d.attempts)*20*time.Millisecond {
 		res += "-SLOW"
 	}
 	order := strings.Join(d.order, ",")
